@@ -21,10 +21,25 @@ func isCloneMethodValue(info *types.Info, e ast.Expr) bool {
 	return ok && (isNamed(tv.Type, "fp", "Clone") || isNamed(tv.Type, "fp", "CloneFunc"))
 }
 
+func calleeOrigin(info *types.Info, call *ast.CallExpr) *types.Func {
+	if fn := calleeOf(info, call); fn != nil {
+		return fn.Origin()
+	}
+	return nil
+}
+
 func Sanitize(c *core.Ctx, rule string, p *packages.Package) {
 	c.Rule(rule, "in every clone closure of a combinator that takes component instances, each use of the input (or of a range variable over it) is the argument of a component instance's Clone, the collection argument of a map whose function is a Clone method value, a range expression, or a nil/len test — nothing of the input reaches the result uncloned")
 	info := p.TypesInfo
 	nCl, nUses := 0, 0
+	helperPkg := func(fd *ast.FuncDecl) bool {
+		for _, f := range p.Syntax {
+			if f.Pos() <= fd.Pos() && fd.End() <= f.End() {
+				return true
+			}
+		}
+		return false
+	}
 	for _, f := range p.Syntax {
 		for _, d := range f.Decls {
 			fd, ok := d.(*ast.FuncDecl)
@@ -60,171 +75,210 @@ func Sanitize(c *core.Ctx, rule string, p *packages.Package) {
 					return true
 				}
 				nCl++
-				roots := map[types.Object]bool{info.Defs[lit.Type.Params.List[0].Names[0]]: true}
-				// range variables over the input become roots
-				for changed := true; changed; {
-					changed = false
-					ast.Inspect(lit.Body, func(x ast.Node) bool {
-						if rs, ok := x.(*ast.RangeStmt); ok {
-							if r, _ := accessorPath(info, rs.X, roots); r != nil {
-								for _, v := range []ast.Expr{rs.Key, rs.Value} {
-									if v == nil {
-										continue
-									}
-									if o := objOf(info, v); o != nil && !roots[o] {
-										// an integer index over a slice is not a component
-										if _, isSlice := info.Types[rs.X].Type.Underlying().(*types.Slice); isSlice && v == rs.Key {
+				// analyse classifies every use of the roots (the input and what is derived from it) in blk and returns the
+				// unsanctioned ones
+				var analyse func(blk ast.Node, roots map[types.Object]bool, depth int) []ast.Expr
+				analyse = func(blk ast.Node, roots map[types.Object]bool, depth int) []ast.Expr {
+					// range variables over the input become roots
+					for changed := true; changed; {
+						changed = false
+						ast.Inspect(blk, func(x ast.Node) bool {
+							if rs, ok := x.(*ast.RangeStmt); ok {
+								if r, _ := accessorPath(info, rs.X, roots); r != nil {
+									for _, v := range []ast.Expr{rs.Key, rs.Value} {
+										if v == nil {
 											continue
 										}
+										if o := objOf(info, v); o != nil && !roots[o] {
+											// an integer index over a slice is not a component
+											if _, isSlice := info.Types[rs.X].Type.Underlying().(*types.Slice); isSlice && v == rs.Key {
+												continue
+											}
+											roots[o] = true
+											changed = true
+										}
+									}
+								}
+							}
+							return true
+						})
+					}
+					// locals bound to a component's Clone method value (cloneElem := tclone.Clone) clone like the method itself;
+					// locals bound to an accessor path of the input (repr := gen.To(a)) stand for that part of the input
+					cloneFns := map[types.Object]bool{}
+					aliasDefs := map[ast.Expr]bool{}
+					for changed := true; changed; {
+						changed = false
+						ast.Inspect(blk, func(x ast.Node) bool {
+							as, ok := x.(*ast.AssignStmt)
+							if !ok {
+								return true
+							}
+							// v, ok := s.Unapply() / v, ok := m[k]: v names a part of the input, ok is a flag
+							if len(as.Lhs) == 2 && len(as.Rhs) == 1 && as.Tok == token.DEFINE {
+								r := ast.Unparen(as.Rhs[0])
+								inner := r
+								if call, ok := r.(*ast.CallExpr); ok && len(call.Args) == 0 {
+									if sel, ok := ast.Unparen(call.Fun).(*ast.SelectorExpr); ok {
+										inner = sel.X
+									}
+								}
+								if root, _ := accessorPath(info, inner, roots); root != nil {
+									if o := objOf(info, as.Lhs[0]); o != nil && !roots[o] {
 										roots[o] = true
+										aliasDefs[as.Rhs[0]] = true
+										changed = true
+									}
+								}
+								return true
+							}
+							if len(as.Lhs) != len(as.Rhs) {
+								return true
+							}
+							for i, r := range as.Rhs {
+								o := objOf(info, as.Lhs[i])
+								if o == nil {
+									continue
+								}
+								if isCloneMethodValue(info, r) && !cloneFns[o] {
+									cloneFns[o] = true
+									changed = true
+								}
+								if as.Tok == token.DEFINE && !nodeContains(r, true, func(y ast.Node) bool {
+									call, ok := y.(*ast.CallExpr)
+									return ok && (isCloneMethodValue(info, call.Fun) || cloneFns[objOf(info, call.Fun)])
+								}) {
+									if root, _ := accessorPath(info, r, roots); root != nil && !roots[o] {
+										roots[o] = true
+										aliasDefs[r] = true
 										changed = true
 									}
 								}
 							}
-						}
-						return true
-					})
-				}
-				// locals bound to a component's Clone method value (cloneElem := tclone.Clone) clone like the method itself;
-				// locals bound to an accessor path of the input (repr := gen.To(a)) stand for that part of the input
-				cloneFns := map[types.Object]bool{}
-				aliasDefs := map[ast.Expr]bool{}
-				for changed := true; changed; {
-					changed = false
-					ast.Inspect(lit.Body, func(x ast.Node) bool {
-						as, ok := x.(*ast.AssignStmt)
-						if !ok {
 							return true
+						})
+					}
+					isCloner := func(e ast.Expr) bool {
+						return isCloneMethodValue(info, e) || cloneFns[objOf(info, e)]
+					}
+					// classify every maximal accessor path
+					var visit func(n ast.Node, ctx string)
+					var bad []ast.Expr
+					report := func(e ast.Expr) {
+						nUses++
+						bad = append(bad, e)
+					}
+					visit = func(n ast.Node, ctx string) {
+						if e, ok := n.(ast.Expr); ok && aliasDefs[e] {
+							nUses++ // names a part of the input; its uses are judged where they occur
+							return
 						}
-						// v, ok := s.Unapply() / v, ok := m[k]: v names a part of the input, ok is a flag
-						if len(as.Lhs) == 2 && len(as.Rhs) == 1 && as.Tok == token.DEFINE {
-							r := ast.Unparen(as.Rhs[0])
-							inner := r
-							if call, ok := r.(*ast.CallExpr); ok && len(call.Args) == 0 {
-								if sel, ok := ast.Unparen(call.Fun).(*ast.SelectorExpr); ok {
-									inner = sel.X
+						switch x := n.(type) {
+						case nil:
+							return
+						case *ast.FuncLit:
+							visit(x.Body, "")
+							return
+						case *ast.RangeStmt:
+							if r, _ := accessorPath(info, x.X, roots); r != nil {
+								nUses++ // sanctioned: iteration
+							} else {
+								visit(x.X, "")
+							}
+							visit(x.Body, "")
+							return
+						case *ast.BinaryExpr:
+							if (x.Op == token.EQL || x.Op == token.NEQ) && (exprString(x.Y) == "nil" || exprString(x.X) == "nil") {
+								for _, s := range []ast.Expr{x.X, x.Y} {
+									if r, _ := accessorPath(info, s, roots); r != nil {
+										nUses++
+									} else {
+										visit(s, "")
+									}
+								}
+								return
+							}
+						case *ast.CallExpr:
+							if isBuiltinCall(info, x, "len") || isBuiltinCall(info, x, "cap") {
+								nUses++
+								return
+							}
+							// X.Clone(arg) / cloneElem(arg)
+							if isCloner(x.Fun) && len(x.Args) == 1 {
+								if r, _ := accessorPath(info, x.Args[0], roots); r != nil {
+									nUses++
+									if se, ok := ast.Unparen(x.Fun).(*ast.SelectorExpr); ok {
+										visit(se.X, "")
+									}
+									return
 								}
 							}
-							if root, _ := accessorPath(info, inner, roots); root != nil {
-								if o := objOf(info, as.Lhs[0]); o != nil && !roots[o] {
-									roots[o] = true
-									aliasDefs[as.Rhs[0]] = true
-									changed = true
+							// helper(…, input, …): a function of this package whose own uses of the corresponding parameters are all
+							// sanctioned (copyEntries(map[K]V{}, s, clonek, clonev))
+							if hfd := c.FuncDecl(calleeOrigin(info, x)); hfd != nil && hfd.Body != nil && hfd.Recv == nil && depth < 2 && helperPkg(hfd) {
+								hroots := map[types.Object]bool{}
+								passed := map[int]bool{}
+								idx := 0
+								for _, fl := range hfd.Type.Params.List {
+									for _, nm := range fl.Names {
+										if idx < len(x.Args) {
+											if r, _ := accessorPath(info, x.Args[idx], roots); r != nil {
+												if o := info.Defs[nm]; o != nil {
+													hroots[o] = true
+													passed[idx] = true
+												}
+											}
+										}
+										idx++
+									}
+								}
+								if len(hroots) > 0 && idx == len(x.Args) && len(analyse(hfd.Body, hroots, depth+1)) == 0 {
+									for i, a := range x.Args {
+										if passed[i] {
+											nUses++
+										} else {
+											visit(a, "")
+										}
+									}
+									return
 								}
 							}
-							return true
-						}
-						if len(as.Lhs) != len(as.Rhs) {
-							return true
-						}
-						for i, r := range as.Rhs {
-							o := objOf(info, as.Lhs[i])
-							if o == nil {
-								continue
-							}
-							if isCloneMethodValue(info, r) && !cloneFns[o] {
-								cloneFns[o] = true
-								changed = true
-							}
-							if as.Tok == token.DEFINE && !nodeContains(r, true, func(y ast.Node) bool {
-								call, ok := y.(*ast.CallExpr)
-								return ok && (isCloneMethodValue(info, call.Fun) || cloneFns[objOf(info, call.Fun)])
-							}) {
-								if root, _ := accessorPath(info, r, roots); root != nil && !roots[o] {
-									roots[o] = true
-									aliasDefs[r] = true
-									changed = true
+							// Map(coll, inst.Clone)
+							if len(x.Args) == 2 && isCloner(x.Args[1]) {
+								if r, _ := accessorPath(info, x.Args[0], roots); r != nil {
+									nUses++
+									return
 								}
 							}
+						case ast.Expr:
+							if aliasDefs[x] {
+								nUses++ // names a part of the input; its uses are judged where they occur
+								return
+							}
+							if r, _ := accessorPath(info, x, roots); r != nil {
+								report(x)
+								return
+							}
 						}
-						return true
-					})
+						// generic descent
+						ast.Inspect(n, func(ch ast.Node) bool {
+							if ch == n || ch == nil {
+								return ch == n
+							}
+							visit(ch, "")
+							return false
+						})
+					}
+					// declarations of roots themselves (lit params, range vars) are Defs, not Uses: accessorPath only matches Uses
+					visit(blk, "")
+					return bad
 				}
-				isCloner := func(e ast.Expr) bool {
-					return isCloneMethodValue(info, e) || cloneFns[objOf(info, e)]
-				}
-				// classify every maximal accessor path
-				var visit func(n ast.Node, ctx string)
 				bad := 0
-				report := func(e ast.Expr) {
-					nUses++
+				for _, e := range analyse(lit.Body, map[types.Object]bool{info.Defs[lit.Type.Params.List[0].Names[0]]: true}, 0) {
 					bad++
 					c.Add(rule, name+"/"+exprString(e)+"#"+itoa(bad), e.Pos(), core.Violated,
 						"input component `"+exprString(e)+"` is used without passing through a component instance's Clone: original and clone share what it refers to")
 				}
-				visit = func(n ast.Node, ctx string) {
-					if e, ok := n.(ast.Expr); ok && aliasDefs[e] {
-						nUses++ // names a part of the input; its uses are judged where they occur
-						return
-					}
-					switch x := n.(type) {
-					case nil:
-						return
-					case *ast.FuncLit:
-						visit(x.Body, "")
-						return
-					case *ast.RangeStmt:
-						if r, _ := accessorPath(info, x.X, roots); r != nil {
-							nUses++ // sanctioned: iteration
-						} else {
-							visit(x.X, "")
-						}
-						visit(x.Body, "")
-						return
-					case *ast.BinaryExpr:
-						if (x.Op == token.EQL || x.Op == token.NEQ) && (exprString(x.Y) == "nil" || exprString(x.X) == "nil") {
-							for _, s := range []ast.Expr{x.X, x.Y} {
-								if r, _ := accessorPath(info, s, roots); r != nil {
-									nUses++
-								} else {
-									visit(s, "")
-								}
-							}
-							return
-						}
-					case *ast.CallExpr:
-						if isBuiltinCall(info, x, "len") || isBuiltinCall(info, x, "cap") {
-							nUses++
-							return
-						}
-						// X.Clone(arg) / cloneElem(arg)
-						if isCloner(x.Fun) && len(x.Args) == 1 {
-							if r, _ := accessorPath(info, x.Args[0], roots); r != nil {
-								nUses++
-								if se, ok := ast.Unparen(x.Fun).(*ast.SelectorExpr); ok {
-									visit(se.X, "")
-								}
-								return
-							}
-						}
-						// Map(coll, inst.Clone)
-						if len(x.Args) == 2 && isCloner(x.Args[1]) {
-							if r, _ := accessorPath(info, x.Args[0], roots); r != nil {
-								nUses++
-								return
-							}
-						}
-					case ast.Expr:
-						if aliasDefs[x] {
-							nUses++ // names a part of the input; its uses are judged where they occur
-							return
-						}
-						if r, _ := accessorPath(info, x, roots); r != nil {
-							report(x)
-							return
-						}
-					}
-					// generic descent
-					ast.Inspect(n, func(ch ast.Node) bool {
-						if ch == n || ch == nil {
-							return ch == n
-						}
-						visit(ch, "")
-						return false
-					})
-				}
-				// declarations of roots themselves (lit params, range vars) are Defs, not Uses: accessorPath only matches Uses
-				visit(lit.Body, "")
 				if bad == 0 {
 					c.Add(rule, name, lit.Pos(), core.Discharged, "every use of the input is cloned through a component instance")
 				}
